@@ -138,9 +138,10 @@ func batchToRequests(connectionGroup []builderSlotGroup) []requestBatch {
 				batch.UnitID = unitID
 			}
 
-			slotEndAddress := slotAddress + slot.size
-			addressDiff := slotEndAddress - firstAddress
-			if addressDiff > addressLimit {
+			// int as slot at the end of address space (65535) ends at 65536 which does not fit into uint16
+			slotEndAddress := int(slotAddress) + int(slot.size)
+			addressDiff := slotEndAddress - int(firstAddress)
+			if addressDiff > int(addressLimit) {
 				result = append(result, batch)
 
 				batch = requestBatch{
@@ -149,10 +150,10 @@ func batchToRequests(connectionGroup []builderSlotGroup) []requestBatch {
 					StartAddress: slotAddress,
 				}
 				firstAddress = slotAddress
-				addressDiff = slot.size
+				addressDiff = int(slot.size)
 			}
-			if batch.Quantity < addressDiff {
-				batch.Quantity = addressDiff
+			if int(batch.Quantity) < addressDiff {
+				batch.Quantity = uint16(addressDiff)
 			}
 
 			batch.fields = append(batch.fields, slot.fields...)
